@@ -431,6 +431,46 @@ theorem C01_tip_dominates_submissions (r : Repo) (hs : List (Hdr × Bool)) (h0 :
   C01_tip_dominates_every_header _ (C01_tip_maximal_submissions r hs h0 hq)
     (workWF_submitAll r hs hwf.link hwk hq') (repoWF_submitAll r hs hwf hq').ids bi b k d hb hk
 
+/-! ### without any assumption on the verdicts -/
+
+/-- one submission keeps the tip maximal in every state reached by submissions: the internal error
+    and crash outcomes excluded by `C01_tipmax_step` cannot occur there (`passed_verdict_ok`). -/
+theorem C01_tipmax_step_wf (r : Repo) (h : Hdr) (ok : Bool) (hmax : TipMax r) (hs : StreamWF r)
+    (hlv : r.longest < r.arena.length)
+    (hnc : ∀ pb ph lst, precheck r h ok = .inr (pb, ph, lst) →
+      Int.tmod ((r.br pb).height + 1) (Facts.autoCleanModulus : Int) ≠ 0) :
+    TipMax (processHeader r h ok).1 := by
+  cases hpc : precheck r h ok with
+  | inl v => rw [processHeader_of_inl r h ok v hpc]; exact hmax
+  | inr x =>
+    obtain ⟨pb, ph, lst⟩ := x
+    have hv := passed_verdict_ok r h ok hs hlv hnc pb ph lst hpc
+    exact C01_tipmax_step r h ok hmax (by rw [hv]; rfl) hnc
+
+/-- **C01 (sentences 1 and 3, submission histories, no assumption on verdicts).** From the
+    genesis-only repository (or any well-formed state with a maximal tip), after ANY finite history
+    of submissions in which the automatic clean is not due, the reported tip has maximal accumulated
+    work among all tracked branch tips — no submission can end in an error that leaves a heavier
+    accepted chain unreported, because no submission ends in an internal error at all. -/
+theorem C01_tip_maximal_wf (r : Repo) (hs : List (Hdr × Bool)) (h0 : TipMax r) (hwf : StreamWF r)
+    (hlv : r.longest < r.arena.length) (hq : NoAutoClean r hs) : TipMax (submitAll r hs) := by
+  induction hs generalizing r with
+  | nil => exact h0
+  | cons x xs ih =>
+    obtain ⟨h1, h2⟩ := hq
+    simp only [submitAll, List.foldl_cons]
+    exact ih _ (C01_tipmax_step_wf r x.1 x.2 h0 hwf hlv h1) (streamWF_processHeader r x.1 x.2 hwf h1)
+      (longestValid_processHeader r x.1 x.2 hwf hlv h1) h2
+
+/-- and it dominates every header any tracked branch holds. -/
+theorem C01_tip_dominates_wf (r : Repo) (hs : List (Hdr × Bool)) (h0 : TipMax r) (hwf : StreamWF r)
+    (hwk : WorkWF r.arena) (hlv : r.longest < r.arena.length) (hq : NoAutoClean r hs)
+    (bi : Nat) (b : Branch) (k : Nat) (d : HData)
+    (hb : (submitAll r hs).arena[bi]? = some b) (hk : b.headers[k]? = some d) :
+    ∃ wl, lastWork (submitAll r hs).arena (submitAll r hs).longest = some wl ∧ d.work ≤ wl :=
+  C01_tip_dominates_every_header _ (C01_tip_maximal_wf r hs h0 hwf hlv hq)
+    (workWF_submitAll r hs hwf.chain.wf.link hwk hq) (repoWF_submitAll r hs hwf.chain.wf hq).ids bi b k d hb hk
+
 /-! ### the extracted shapes the model relies on -/
 
 /-- `ProcessHeader` and every reader hold the repository mutex for their whole body, so concurrent
